@@ -9,6 +9,7 @@ import KcpVerif.Lemmas.SysCleanRun
 import KcpVerif.Lemmas.SysProgress
 import KcpVerif.Lemmas.SysProgress2
 import KcpVerif.Lemmas.SysDrainCex
+import KcpVerif.Lemmas.SysDrainCons2
 /-! C02 — eventual delivery: a healed network always drains the backlog. -/
 namespace KcpVerif.Props
 open KcpVerif KcpVerif.Gen KcpVerif.Kcp KcpVerif.Live
@@ -751,5 +752,40 @@ theorem C02_drain_refuted_prerepair : ¬ C02_drain_full_prerepair := by
   have := hT (SysC.stuckRounds T) (SysC.stuckRounds_nosend T) (by rw [hnow]; exact Nat.le_refl _)
   have := (C02_wedge_forever_prerepair (SysC.stuckRounds T)).2.1
   omega
+
+/-! ### the cross-endpoint consistency invariant, any history (repaired model)
+
+`SysC.Cons` (Lemmas/SysDrainCons.lean, SysDrainCons2.lean) is preserved by every event of the closed
+system (`SysC.cons_step`) and by every fault of the network that does not forge
+(`SysC.cons_shuffle`: any drop, duplication, reordering of what is in flight). -/
+
+open KcpVerif.Sys KcpVerif.SysC in
+/-- **Consistency after ANY history.**  Two fresh cores with one conversation id (`ConsInit`), data
+from A to B, any sequence of fair events and network faults (`NetEv`), fewer than 2^31 segments
+(`NetNoWrap`).  In the state reached: nothing panicked; A's send buffer holds exactly the sequence
+numbers `snd_una … snd_nxt − 1`; B's `rcv_nxt` is not beyond A's `snd_nxt`; and B HAS — delivered to
+its queue, or waiting in its reorder buffer — every segment A has released (below `snd_una`), every
+segment flagged `acked` in A's send buffer, and every entry of its own ack list.  So no fault pattern
+makes A forget a segment B does not have, and no acknowledgement is ever sent for a segment that is
+then dropped. -/
+theorem C02_consistency_any_history (A B : Kcp) (D t0 : Nat) (ndA ndB : Bool) (hinit : ConsInit A B)
+    (evs : List NetEv) (hrun : NetNoWrap A.snd_nxt (Sys.init A B D t0 ndA ndB) evs) :
+    (netRun (Sys.init A B D t0 ndA ndB) evs).panic = false ∧
+    Contig A.snd_nxt (netRun (Sys.init A B D t0 ndA ndB) evs).A ∧
+    o A.snd_nxt (netRun (Sys.init A B D t0 ndA ndB) evs).B.rcv_nxt ≤ o A.snd_nxt (netRun (Sys.init A B D t0 ndA ndB) evs).A.snd_nxt ∧
+    (∀ sn, o A.snd_nxt sn < o A.snd_nxt (netRun (Sys.init A B D t0 ndA ndB) evs).A.snd_una →
+      Has A.snd_nxt (netRun (Sys.init A B D t0 ndA ndB) evs).B.rcv_nxt (netRun (Sys.init A B D t0 ndA ndB) evs).B.rcv_buf sn) ∧
+    (∀ x ∈ (netRun (Sys.init A B D t0 ndA ndB) evs).A.snd_buf, x.acked = true →
+      Has A.snd_nxt (netRun (Sys.init A B D t0 ndA ndB) evs).B.rcv_nxt (netRun (Sys.init A B D t0 ndA ndB) evs).B.rcv_buf x.sn) ∧
+    (∀ a ∈ (netRun (Sys.init A B D t0 ndA ndB) evs).B.acklist,
+      Has A.snd_nxt (netRun (Sys.init A B D t0 ndA ndB) evs).B.rcv_nxt (netRun (Sys.init A B D t0 ndA ndB) evs).B.rcv_buf a.sn) := by
+  obtain ⟨gab, gba, hc⟩ := cons_netRun (p := ⟨A.snd_nxt, A.conv, 0, 0, 0⟩) evs _ [] []
+    (cons_init A B D t0 ndA ndB hinit) hrun
+  exact ⟨hc.np, hc.acon, hc.bub, hc.arel, hc.ahas, hc.back⟩
+
+/-- non-vacuity: the fault history of the wedge, replayed on the repaired model as a `NetEv` history
+(the held-back datagram is removed by one `shuffle` and re-inserted by another, the window update is
+dropped by a third) -/
+example : SysC.ConsInit SysC.wedgeA SysC.wedgeB := by decide
 
 end KcpVerif.Props
